@@ -234,21 +234,41 @@ def rule_permexh(ctx):
         full = any(x.op == "call" and call_name(x) == "builtins.range" and "estimated_sources" in tm.params_of(x) for x in tm.walk(arg))
         r_only = len(pc[0].args) == 1
         yield ob(R, f, "%s:all-permutations" % q, full and r_only, "candidates are all permutations of range(nsrc)", node=pc[0].node)
-        st = [m for m in s.by_kind("mutate") if m.how == "setitem" and m.root == "mean_sir" or (m.how == "setitem" and m.val.op == "call" and call_name(m.val) == "np.mean" and any(p[0] == "loop" for p in m.pc) and "perm" in tm.show(m.val, 6))]
-        good = False
-        for m in st:
-            v = m.val
-            if v.op == "call" and call_name(v) == "np.mean" and v.a[1][0].op == "sub":
-                sb = v.a[1][0]
-                base, idx = sb.a
-                # sir[perm, arange(nsrc)]
-                from_sir = base.op in ("loop", "loopvar", "upd") and _buffer_name(s, base) == "sir"
-                idx_ok = idx.op == "tuple" and len(idx.a) == 2 and idx.a[0].op in ("iter", "sub") and idx.a[1].op == "call" and call_name(idx.a[1]) == "np.arange"
-                good = from_sir and idx_ok
-        yield ob(R, f, "%s:mean-sir" % q, good, "each permutation is scored by mean(sir[perm, arange(nsrc)])")
+        # the argument of np.argmax is the per-permutation score: either a buffer filled in a loop over the permutations
+        # or a comprehension over them; each entry is mean(SIR[perm, arange(nsrc)]) with SIR the buffer that receives
+        # the `sir` component of the crit function (position of 'sir' in its documented Returns / return tuple)
         am = [c for c in s.calls() if c.callee == "np.argmax"]
-        good = len(am) == 1 and _buffer_name(s, am[0].args[0]) == "mean_sir"
-        yield ob(R, f, "%s:argmax" % q, good, "the chosen permutation maximises the mean SIR (np.argmax)")
+        crit = "separation._bss_source_crit" if q.endswith("sources") else "separation._bss_image_crit"
+        sir_pos = 1 if q.endswith("sources") else 2
+
+        def is_sir_buffer(base):
+            nm = _buffer_name(s, base)
+            if nm is None:
+                return False
+            vals = [m.val for m in s.by_kind("mutate") if m.how == "setitem" and m.root == nm]
+            return bool(vals) and all(v.op == "sub" and v.a[0].op == "call" and call_name(v.a[0]) == crit and tm.is_const(v.a[1], sir_pos) for v in vals)
+
+        def score_ok(v):
+            if not (v.op == "call" and call_name(v) == "np.mean" and v.a[1][0].op == "sub"):
+                return False
+            base, idx = v.a[1][0].a
+            idx_ok = idx.op == "tuple" and len(idx.a) == 2 and idx.a[0].op in ("iter", "sub") and idx.a[1].op == "call" and call_name(idx.a[1]) == "np.arange" and any(x.op == "call" and call_name(x) == "itertools.permutations" for x in tm.walk(idx.a[0]))
+            return idx_ok and base.op in ("loop", "loopvar", "upd") and is_sir_buffer(base)
+
+        good = False
+        scores = None
+        if len(am) == 1:
+            A = am[0].args[0]
+            if A.op == "call" and call_name(A) in ("np.array", "np.asarray") and A.a[1]:
+                A = A.a[1][0]
+            if A.op == "comp" and A.a[0] in ("list", "gen") and len(A.a[2]) == 1 and not A.a[3]:
+                scores = [A.a[1]]
+            else:
+                nm = _buffer_name(s, A)
+                scores = [m.val for m in s.by_kind("mutate") if m.how == "setitem" and nm is not None and m.root == nm]
+            good = bool(scores) and all(score_ok(v) for v in scores)
+        yield ob(R, f, "%s:mean-sir" % q, good, "each permutation is scored by mean(sir[perm, arange(nsrc)])")
+        yield ob(R, f, "%s:argmax" % q, len(am) == 1 and bool(scores), "the chosen permutation maximises the mean SIR (np.argmax over the per-permutation scores)")
         rets = [r for r in s.returns if r.term.op == "tuple"]
         perm_ret = [r for r in rets if any(cc.op == "param" and cc.a[0] == "compute_permutation" and p for cc, p in symeval.pc_conds(r.pc))]
         noperm_ret = [r for r in rets if any(cc.op == "param" and cc.a[0] == "compute_permutation" and not p for cc, p in symeval.pc_conds(r.pc))]
